@@ -56,14 +56,15 @@ def make_iter(ex, node, st):
     k = ty.kind
     if k == 'list':
         a = S.addr(v.t)
-        seq = z3.Select(st.field('list'), a)
+        seq = st.sel('list', a)
 
         def unchanged(st2, a=a, seq=seq):
-            return z3.Select(st2.field('list'), a) == seq
+            return st2.sel('list', a) == seq
 
         def elem(i, st2, seq=seq, et=ty.t):
-            t = seq[i]
+            t = S.at(seq, i)
             st2.assume(S.has_type(t, et, st2.next_ref))
+            st2.note_epoch(seq, t)
             return V(t, et)
         return Iter(z3.Length(seq), elem, seq, unchanged, 'list')
     if k in ('tupleof', 'tuple'):
@@ -72,7 +73,7 @@ def make_iter(ex, node, st):
         et = ty.t if k == 'tupleof' else _join_types(ty.ts)
 
         def elem(i, st2, seq=seq, et=et):
-            t = seq[i]
+            t = S.at(seq, i)
             st2.assume(S.has_type(t, et, st2.next_ref))
             return V(t, et)
         return Iter(z3.Length(seq), elem, seq, None, 'tuple')
@@ -88,7 +89,7 @@ def make_iter(ex, node, st):
             seq, et = bm.seq_of_value(ex, inner, st, desc)
 
             def elem(i, st2, seq=seq, et=et):
-                t = seq[i]
+                t = S.at(seq, i)
                 st2.assume(S.has_type(t, et, st2.next_ref))
                 return V(t, et)
             return Iter(z3.Length(seq), elem, seq, None, 'tuple')
@@ -98,23 +99,23 @@ def make_iter(ex, node, st):
 def dict_iter(ex, d, ty, st, what, is_set=False):
     a = S.addr(d.t)
     if ex.track_keys and not is_set:
-        seq = z3.Select(st.field('keys'), a)
+        seq = st.sel('keys', a)
     else:
         seq = bm.enum_of_dom(ex, d, st)
-    dom0 = z3.Select(st.field('dom'), a)
-    val0 = z3.Select(st.field('val'), a) if not is_set else None
+    dom0 = st.sel('dom', a)
+    val0 = st.sel('val', a) if not is_set else None
 
     def unchanged(st2):
         # size/keys must not change during iteration (values may)
-        return z3.Select(st2.field('dom'), a) == dom0
+        return st2.sel('dom', a) == dom0
 
     def elem(i, st2):
-        k = seq[i]
+        k = S.at(seq, i)
         st2.assume(S.has_type(k, ty.k, st2.next_ref))
         st2.assume(z3.Select(dom0, k))
         if what == 'keys':
             return V(k, ty.k)
-        cur = z3.Select(z3.Select(st2.field('val'), a), k)
+        cur = z3.Select(st2.sel('val', a), k)
         st2.assume(S.has_type(cur, ty.v, st2.next_ref))
         if what == 'values':
             return V(cur, ty.v)
@@ -213,9 +214,9 @@ def havoc_for_loop(ex, st, spec, names, fields, cx_head):
             h.assume(z3.ForAll([a], z3.Implies(z3.And(a > 0, a < old_next, *[a != r for r in refs]),
                                                z3.Select(newt, a) == z3.Select(oldt, a)), patterns=[z3.Select(newt, a)]))
         h.set_field(fld, newt)
-        from .engine import wf_axioms
-        for ax in wf_axioms(fld, newt, nn):
+        for ax in ex.heap_axioms(fld, newt, nn):
             h.assume(ax)
+        ex.register_epoch(newt, nn)
     return h, modspec
 
 
